@@ -35,9 +35,47 @@ func (P *Program) Resolve(v ssa.Value) []ssa.Value { return P.resolve(v, false) 
 // ResolveDeep additionally looks through loads of fields of module-defined structs (union of all stores).
 func (P *Program) ResolveDeep(v ssa.Value) []ssa.Value { return P.resolve(v, true) }
 
+// ResolveOpaque: like Resolve, but calls of product helpers are kept as roots (for rules about WHICH function is
+// called rather than what value arrives).
+func (P *Program) ResolveOpaque(v ssa.Value) []ssa.Value {
+	old := P.opaqueCalls
+	P.opaqueCalls = true
+	defer func() { P.opaqueCalls = old }()
+	return P.resolve(v, false)
+}
+
 func (P *Program) resolve(v ssa.Value, deep bool) []ssa.Value {
+	out, _ := P.resolveCtx(v, deep)
+	return out
+}
+
+type pinMap = map[*ssa.Function]ssa.CallInstruction
+
+// resolveCtx: the origins of v and, for origins found inside a transparent helper, the calling context (helper ->
+// the call through which it was entered) under which the origin has to be described.
+func (P *Program) resolveCtx(v ssa.Value, deep bool) ([]ssa.Value, map[ssa.Value]pinMap) {
 	seen := map[ssa.Value]bool{}
 	var out []ssa.Value
+	var ctxOf map[ssa.Value]pinMap
+	var cur pinMap
+	// inHelper walks the values returned by helper call x with the helper pinned to x
+	inHelper := func(x *ssa.Call, rets []ssa.Value, walk func(ssa.Value)) {
+		callee := x.Call.StaticCallee()
+		savedPin, savedCur := P.pin, cur
+		np, nc := pinMap{}, pinMap{}
+		for k, c := range savedPin {
+			np[k] = c
+		}
+		for k, c := range savedCur {
+			nc[k] = c
+		}
+		np[callee], nc[callee] = x, x
+		P.pin, cur = np, nc
+		for _, r := range rets {
+			walk(r)
+		}
+		P.pin, cur = savedPin, savedCur
+	}
 	var walk func(v ssa.Value)
 	add := func(v ssa.Value) {
 		for _, o := range out {
@@ -46,6 +84,14 @@ func (P *Program) resolve(v ssa.Value, deep bool) []ssa.Value {
 			}
 		}
 		out = append(out, v)
+		if cur != nil {
+			if _, isConst := v.(*ssa.Const); !isConst {
+				if ctxOf == nil {
+					ctxOf = map[ssa.Value]pinMap{}
+				}
+				ctxOf[v] = cur
+			}
+		}
 	}
 	walk = func(v ssa.Value) {
 		if v == nil || seen[v] {
@@ -95,22 +141,18 @@ func (P *Program) resolve(v ssa.Value, deep bool) []ssa.Value {
 			}
 			add(x)
 		case *ssa.Call:
-			if deep {
+			if !P.opaqueCalls {
 				if rets := P.helperReturns(x, 0); rets != nil {
-					for _, r := range rets {
-						walk(r)
-					}
+					inHelper(x, rets, walk)
 					return
 				}
 			}
 			add(x)
 		case *ssa.Extract:
-			if deep {
+			if !P.opaqueCalls {
 				if call, ok := x.Tuple.(*ssa.Call); ok {
 					if rets := P.helperReturns(call, x.Index); rets != nil {
-						for _, r := range rets {
-							walk(r)
-						}
+						inHelper(call, rets, walk)
 						return
 					}
 				}
@@ -129,7 +171,7 @@ func (P *Program) resolve(v ssa.Value, deep bool) []ssa.Value {
 		}
 	}
 	walk(v)
-	return out
+	return out, ctxOf
 }
 
 // paramArgs: the arguments bound to parameter p at all static product call sites; nil when p is a root
@@ -405,6 +447,8 @@ func (P *Program) DescDeep(v ssa.Value) string { return P.desc(v, true) }
 func (P *Program) desc(v ssa.Value, deep bool) string {
 	if P.descMemo == nil {
 		P.descMemo = map[descKey]string{}
+	}
+	if P.descBusy == nil {
 		P.descBusy = map[descKey]bool{}
 	}
 	memo := P.descMemo
@@ -422,9 +466,16 @@ func (P *Program) desc(v ssa.Value, deep bool) string {
 		return "cycle"
 	}
 	P.descBusy[k] = true
-	roots := P.resolve(v, deep)
+	roots, ctxOf := P.resolveCtx(v, deep)
 	set := map[string]bool{}
 	for _, r := range roots {
+		if ctx := ctxOf[r]; ctx != nil && P.pinDepth < 3 {
+			// an origin inside a helper is described in the calling context it was reached through
+			P.pinDepth++
+			P.PinnedAll(ctx, func() { set[P.termDesc(r, deep)] = true })
+			P.pinDepth--
+			continue
+		}
 		set[P.termDesc(r, deep)] = true
 	}
 	var alts []string
@@ -846,7 +897,7 @@ var anchorPrefixes = []string{
 	"indexing.", "util.", "(util.", "(*util.", "config.", "(*config.", "codes.", "reporting.", "(*reporting.",
 	"annotations.ExtractReceiverType", "annotations.ReadAllAnnotations", "annotations.parse", "(*annotations.PackageAnnotations).",
 	"ignore.ReadIgnoreAnnotations", "ignore.findInlineNode", "ignore.findNextNodeAfterComment", "ignore.parseIgnoreAnnotation",
-	"implements.", "analyzer.", "testonly.CheckTestOnly", "immutable.CheckImmutable", "constructor.CheckConstructor", "packageonly.CheckPackageOnly",
+	"implements.", "testonly.CheckTestOnly", "immutable.CheckImmutable", "constructor.CheckConstructor", "packageonly.CheckPackageOnly",
 }
 
 func (P *Program) isAnchor(fn *ssa.Function) bool {
